@@ -259,5 +259,5 @@ func (c *Coder) Decode(data []byte, m *message.Message) (int, error) {
 	if math.CastTo[uint32](len(data)) < header.MessageLength {
 		return -1, message.ErrShortRead
 	}
-	return c.DecodeWithHeader(data[header.Length:], header, m)
+	return c.DecodeWithHeader(data[header.Length:header.MessageLength], header, m)
 }
